@@ -22,6 +22,7 @@ pub mod c15;
 pub mod c17;
 pub mod c19;
 pub mod c20;
+pub mod cli;
 pub mod trainc;
 pub mod dictops;
 pub mod common;
